@@ -503,6 +503,31 @@ func (ts *TermStore) FPIsNaN(a *Term) *Term {
 	return ts.mk("fp.isNaN", BoolSort, [2]int{}, "", 0, false, a)
 }
 
+// FPUn: fp.abs and fp.rti.<mode> (round to integral: RNA = math.Round, RTN = Floor, RTP = Ceil,
+// RTZ = Trunc, RNE = RoundToEven); exact operations, so 32-bit values are computed in float64.
+func (ts *TermStore) FPUn(op string, a *Term) *Term {
+	if a.IsConst {
+		x := fpVal(a)
+		var r float64
+		switch op {
+		case "fp.abs":
+			r = math.Abs(x)
+		case "fp.rti.RNA":
+			r = math.Round(x)
+		case "fp.rti.RTN":
+			r = math.Floor(x)
+		case "fp.rti.RTP":
+			r = math.Ceil(x)
+		case "fp.rti.RTZ":
+			r = math.Trunc(x)
+		case "fp.rti.RNE":
+			r = math.RoundToEven(x)
+		}
+		return ts.FPConst(a.S.W, r)
+	}
+	return ts.mk(op, a.S, [2]int{}, "", 0, false, a)
+}
+
 // FPArith: fp.add fp.sub fp.mul fp.div with RNE.
 func (ts *TermStore) FPArith(op string, a, b *Term) *Term {
 	if a.IsConst && b.IsConst {
@@ -677,6 +702,10 @@ func (t *Term) bodySMT() string {
 		return s + ")"
 	case "fp.add", "fp.sub", "fp.mul", "fp.div":
 		return "(" + t.Op + " RNE " + a(0) + " " + a(1) + ")"
+	case "fp.abs":
+		return "(fp.abs " + a(0) + ")"
+	case "fp.rti.RNA", "fp.rti.RTN", "fp.rti.RTP", "fp.rti.RTZ", "fp.rti.RNE":
+		return "(fp.roundToIntegral " + t.Op[7:] + " " + a(0) + ")"
 	case "extract":
 		return fmt.Sprintf("((_ extract %d %d) %s)", t.P[0], t.P[1], a(0))
 	case "zero_extend", "sign_extend":
